@@ -431,7 +431,7 @@ def runMt (line : String) : String :=
     match cap.nat?.filter (· ≥ 1), senders.nat?.filter (fun n => n ≥ 1 ∧ n ≤ 16), per.nat?.filter (· ≤ 100000),
           seed.nat? with
     | some _, some _, some _, some _ =>
-      if mode == "send" || mode == "try" || mode == "mix" then s!"conserved\tmt-{mode}" else "bad-op"
+      if mode == "send" || mode == "try" || mode == "mix" || mode == "spin" then s!"conserved\tmt-{mode}" else "bad-op"
     | _, _, _, _ => "bad-op"
   | _ => "bad-op"
 
